@@ -486,8 +486,7 @@ class BaseConverter:
         if attrs_has(cl):
             resolve_types(cl)
         if is_union_type(cl):
-            self._union_struct_registry[cl] = func
-            self._structure_func.clear_cache()
+            self._structure_func.register_func_list([(lambda t: t == cl, func)])
         elif get_newtype_base(cl) is not None or is_typeddict(cl):
             # NewTypes and TypedDicts cannot take part in class-based dispatch
             # (TypedDicts do not support subclass checks), so we match them exactly.
